@@ -211,8 +211,8 @@ retry_fetch_lv:
         // case 1. lv_ptr != nullptr, and link to next-layer
         // visited this node
 
-        root = lv_ptr->get_next_layer();
-        if (root == nullptr) {
+        base_node* next_root = lv_ptr->get_next_layer();
+        if (next_root == nullptr) {
             if (early_abort) { return status::WARN_CONCURRENT_OPERATIONS; }
             goto retry_fetch_lv; // NOLINT
         }
@@ -232,8 +232,11 @@ retry_fetch_lv:
         // root was fetched correctly.
         // root = lv; advance key; goto retry_find_border;
         traverse_key_view.remove_prefix(sizeof(key_slice_type));
+        // the stack element of this layer keeps this layer's root (used when the cursor has to
+        // find its border again); only then step down to the next layer
         ctx->stack(key_tup, root, target_border, cmp_to_end,
                    {v_at_fb, permutation(target_border->get_permutation().get_body()), 0});
+        root = next_root;
         if (cmp_to_end == 0) {
             if (key_tup != ctx->get_end_tuple(-1)) {
                 cmp_to_end = -1;
